@@ -73,6 +73,7 @@ type ChanContent struct {
 	capN   int
 	lazy   bool
 	state  *Term // lazy channels: symbolic closed flag
+	havoc  bool  // asynchronous event: each observation forks into fired / not yet
 }
 
 // ---- byte memory ----
